@@ -16,14 +16,14 @@ A_RE = re.compile(r"^A(-?\d+)\((.*)\)$")
 def valid_cfg(np_, w, d):
     return np_ >= 1 and d < w
 
-def gen_scenario(rng, np_, w, d, k, frames, noise=(), faults=True, tag=""):
+def gen_scenario(rng, np_, w, d, k, frames, noise=(), faults=True, tag="", once=0):
     """One session: `new`, then `frames` successful frames of sticky random inputs, with (if faults)
     missing inputs, invalid handles and overwritten inputs sprinkled in."""
     lines = ["new players=%d window=%d dist=%d delay=%d" % (np_, w, d, k)]
-    meta = {"np": np_, "w": w, "d": d, "k": k, "noise": list(noise), "tag": tag}
+    meta = {"np": np_, "w": w, "d": d, "k": k, "noise": list(noise), "tag": tag, "once": once}
     if not valid_cfg(np_, w, d):
         return {"lines": lines, "meta": meta}
-    adv = "advance" + "".join(" noise@%d" % f for f in noise)
+    adv = "advance" + "".join((" noise@%d#%d" % (f, once)) if once else (" noise@%d" % f) for f in noise)
     val = [rng.randrange(6) for _ in range(np_)]
     for f in range(frames):
         for h in range(np_):
@@ -89,6 +89,8 @@ def monitor(scen, out):
     gf = 0                  # the game's frame as implied by the executed requests
     cells = {}              # cell index -> frame saved in it
     first_mismatch = None
+    once = meta.get("once", 0)
+    saves_of_noisy = 0
     for op, r in zip(lines[1:], out[1:]):
         t = op.split()
         where = "%s, op `%s` at frame %d" % (cfg, op, len(submitted))
@@ -140,6 +142,8 @@ def monitor(scen, out):
                 if q[1] != gf:
                     hits.append(("contract", "SaveGameState(%d) while the game is at frame %d (%s)" % (q[1], gf, where)))
                 cells[q[1] % (w + 1)] = q[1]
+                if noise and q[1] == noise[0]:
+                    saves_of_noisy += 1
             elif q[0] == "L":
                 f = q[1]
                 if not (0 <= f < gf):
@@ -170,10 +174,12 @@ def monitor(scen, out):
     if len(noise) == 1 and noise[0] >= 2 and d >= 2:
         F = noise[0]
         if first_mismatch is None:
-            # a call made at current_frame = c succeeded iff more than c frames were played
-            if len(submitted) >= F + d + 3:
-                hits.append(("missed-nondeterminism", "saves of frame %d return a different checksum every time, check distance %d: no MismatchedChecksum in %d frames (%s)"
-                             % (F, d, len(submitted), cfg)))
+            # a call made at current_frame = c succeeded iff more than c frames were played;
+            # single-glitch noise: the glitch must have happened and another save of F must exist
+            if len(submitted) >= F + d + 3 and (once == 0 or saves_of_noisy >= max(once, 2)):
+                hits.append(("missed-nondeterminism", "%s, check distance %d: no MismatchedChecksum in %d frames (%s)"
+                             % (("only save #%d (of %d) of frame %d returns a different checksum" % (once, saves_of_noisy, F)) if once else
+                                ("saves of frame %d return a different checksum every time" % F), d, len(submitted), cfg)))
         elif first_mismatch[0] > F + d + 2:
             hits.append(("late-detection", "noisy frame %d, check distance %d: first MismatchedChecksum at current_frame %d > %d (%s)" % (F, d, first_mismatch[0], F + d + 2, cfg)))
     return hits
@@ -206,7 +212,7 @@ def run_batch(ctx, scens, label, correspond=True, monitored=True):
         hs = monitor(s, out) if monitored else []
         m = s["meta"]
         ctx.count(sample={"cfg": s["lines"][0], "noise": m["noise"], "last": out[-1][:120]} if (st["scenarios"] % 97 == 1) else None,
-                  nontrivial_key=(m["np"], m["w"], m["d"], m["k"], tuple(m["noise"]), m["tag"]) if out[0] == "ok" else None)
+                  nontrivial_key=(m["np"], m["w"], m["d"], m["k"], tuple(m["noise"]), m["tag"], m.get("once", 0)) if out[0] == "ok" else None)
         for cls, what in hs[:1]:
             ctx.hit(cls, what, {"level": "synctest", "scenario": s})
     return impl
@@ -272,6 +278,17 @@ def run(ctx):
             noisy.append(gen_scenario(rng, rng.randrange(1, 5), w, d, rng.randrange(0, 5), F + d + 8, noise=(F,), faults=True, tag="noise-faults"))
     dist["one_noisy_frame(players=2: %s; plus random players/faults)" % ("every F in 0..40 for every valid (window,dist)" if ctx.thorough else "boundary and sampled F for every valid (window,dist)")] = len(noisy)
     run_batch(ctx, noisy, "noisy_frame")
+    # ---- family 3: a single glitch: only the k-th save of frame F differs (a game that forgets one piece of state
+    # once); every placement k = 1..d+1 for every valid (window, dist), F sampled ----
+    glitch = []
+    for (w, d) in pairs:
+        if d < 2:
+            continue
+        for kth in range(1, d + 2):
+            for F in ([2, d + 3, rng.randrange(2, 30)] if not ctx.thorough else list(range(2, 24))):
+                glitch.append(gen_scenario(rng, rng.choice([1, 2]), w, d, rng.randrange(0, 3), F + d + 8, noise=(F,), faults=False, tag="glitch", once=kth))
+    dist["single_glitch(k-th save of F differs, every k in 1..dist+1 for every valid (window,dist>=2))"] = len(glitch)
+    run_batch(ctx, glitch, "single_glitch")
     ctx.cov["rule"] = ("every builder configuration players 0..4 x window 0..9 x check distance 0..window x delay 0..4 (invalid ones must be rejected) "
                        "with a 40-60 frame run of sticky random u32 inputs, shuffled submission order, missing inputs, invalid handles and "
                        "overwritten inputs; long runs beyond the 128-slot input ring with delays up to the theorem's bound; one noisy frame F "
